@@ -28,7 +28,7 @@ impl ModelChecker {
         // Setup environment for model checker
         let sim = sys.sim();
 
-        let mc_net = McNetwork::new(sys.network());
+        let mut mc_net = McNetwork::new(sys.network());
 
         let trace = sys.logger().trace().clone();
         let trace_handler = Rc::new(RefCell::new(TraceHandler::new(trace)));
@@ -36,6 +36,9 @@ impl ModelChecker {
         let mut nodes: HashMap<String, McNode> = HashMap::new();
         for node in sys.nodes() {
             let node = sys.get_node(&node).unwrap();
+            if node.is_crashed() {
+                mc_net.disconnect_node(&node.name);
+            }
             nodes.insert(
                 node.name.clone(),
                 McNode::new(
@@ -43,6 +46,7 @@ impl ModelChecker {
                     node.processes(),
                     trace_handler.clone(),
                     node.clock_skew(),
+                    node.is_crashed(),
                 ),
             );
         }
@@ -51,6 +55,9 @@ impl ModelChecker {
         for event in sim.dump_events() {
             cast!(match event.data {
                 MessageReceived { msg, src, dst, .. } => {
+                    if sys.node_is_crashed(mc_net.get_proc_node(&dst)) {
+                        continue;
+                    }
                     events.push(McEvent::MessageReceived {
                         msg,
                         src,
